@@ -38,6 +38,8 @@ type cbModel struct {
 	outstanding int // trial permits handed out and not yet returned
 	bonus       int // results recorded in half-open by nobody who held a permit (stragglers admitted earlier, direct Record* calls): the statement does not say whether each frees a permit, so that many extra admissions are accepted either way
 	events      []string
+	evMetrics   [][5]uint // per event: the metrics of the state that was left
+	evMetricsOK []bool    // whether those are pinned (not for a time window's envelope, nor for an open state something was recorded in)
 }
 
 func (m *cbModel) now() int64 { return vrt.Elapsed() }
@@ -171,6 +173,8 @@ func (m *cbModel) transition(to circuitbreaker.State, delay int64) {
 		oldMetrics = m.metrics()
 	}
 	m.events = append(m.events, fmt.Sprintf("%v->%v", old, to))
+	m.evMetrics = append(m.evMetrics, oldMetrics)
+	m.evMetricsOK = append(m.evMetricsOK, !(old == circuitbreaker.ClosedState && m.timeBased()) && !(old == circuitbreaker.OpenState && (m.dirtyOpen || m.s.FPeriod != 0)))
 	switch to {
 	case circuitbreaker.OpenState:
 		m.frozen = oldMetrics
@@ -343,7 +347,7 @@ func (r *cbRun) Key() string {
 func (r *cbRun) Apply(op string) string {
 	m := r.m
 	r.events, r.evMetrics = nil, nil
-	m.events = nil
+	m.events, m.evMetrics, m.evMetricsOK = nil, nil, nil
 	want := "" // requirement on the transition caused by a record
 	recorded := false
 	switch op {
@@ -533,6 +537,17 @@ func (r *cbRun) compareEvents(op string) string {
 	if strings.Join(want, ",") != strings.Join(r.events, ",") {
 		return fmt.Sprintf("op %s at t=%d: state-change events %v, the documented machine emits %v", op, m.now(), r.events, want)
 	}
+	// both listeners of a change see the metrics of the state that was left
+	for k := range m.events {
+		if !m.evMetricsOK[k] || 2*k+1 >= len(r.evMetrics) {
+			continue
+		}
+		for _, got := range r.evMetrics[2*k : 2*k+2] {
+			if got != m.evMetrics[k] {
+				return fmt.Sprintf("op %s at t=%d: the %s event carries metrics %v (executions, failures, failure rate, successes, success rate); the state that was left had %v", op, m.now(), m.events[k], got, m.evMetrics[k])
+			}
+		}
+	}
 	return ""
 }
 
@@ -629,7 +644,13 @@ func c03Systems(tier string) []*BXSystem {
 	h := Spec{Kind: KBreaker, FT: 2, FC: 3, BDelay: D, Handle: []Cond{{K: "errs", E: E1}, {K: "result", V: 0}}}
 	out = append(out, &BXSystem{Name: "C03/" + h.String(), Ops: []string{"res0", "res1", "errE1", "errE2", "acq", "t->delay", "t+1"}, New: func() BXRun { return newCBRun(h) }})
 	// delay function (used when a failing execution opens the breaker)
-	df := Spec{Kind: KBreaker, FT: 1, FC: 1, ST: 1, SC: 2, BDelay: D, DelayFn: func(failsafe.ExecutionAttempt[int]) time.Duration { return 70 }}
+	df := Spec{Kind: KBreaker, FT: 1, FC: 1, ST: 1, SC: 2, BDelay: D, DelayFn: func(e failsafe.ExecutionAttempt[int]) time.Duration {
+		// Retry-After style: the delay depends on the failure that opens the breaker (the reference calls it with nil)
+		if e == nil || (e.LastError() == E1 && e.LastResult() == 1) {
+			return 70
+		}
+		return 20
+	}}
 	out = append(out, &BXSystem{Name: "C03/delayfn " + df.String(), Ops: baseOps[:11], New: func() BXRun { return newCBRun(df) }})
 	// the "stay open until closed manually" idiom: the largest possible delay
 	for _, huge := range []time.Duration{math.MaxInt64, 250 * 365 * 24 * time.Hour} {
